@@ -130,7 +130,7 @@ func answer(q []byte) []byte {
 	_ = name
 
 	resp := make([]byte, 0, qend+16)
-	resp = append(resp, q[0], q[1])       // ID
+	resp = append(resp, q[0], q[1])           // ID
 	flags := uint16(0x8000 | 0x0400 | 0x0080) // QR, AA, RA
 	flags |= uint16(q[2]&0x01) << 8           // RD copied
 	rcode := uint16(0)
